@@ -1,7 +1,7 @@
 #!/usr/bin/env python3
 """Build /verif/seeded/ from the sub-agents' output, my confirmation logs and the evaluation summary.
 
-usage: tools/collect_seeded.py <evaluation summary> <out_round1> <confirm_round1> <out_round2> <confirm_round2> <benign_root>
+usage: tools/collect_seeded.py <evaluation summary> <benign_root> <out_round1> <confirm_round1> [<out_round2> <confirm_round2> ...]
 
   evaluation summary: lines "<name> rc=<n> errs=<n> fired=[C01 C02 ]" written by the runner that applied every patch to a
                       scratch worktree of /repo HEAD and ran `./check all` (names: m1-Cxx-mN, m2-Cxx-mN, b-<dir>-rN, revert_Dn)
@@ -53,7 +53,9 @@ def load_summary(path):
 
 
 def main():
-    summ, out1, conf1, out2, conf2, benign = sys.argv[1:7]
+    summ, benign = sys.argv[1:3]
+    rest = sys.argv[3:]
+    rounds = [(i // 2 + 1, rest[i], rest[i + 1]) for i in range(0, len(rest) - 1, 2)]
     ev = load_summary(summ)
     head = os.popen("git -C /repo rev-parse --short HEAD").read().strip()
     sd = os.path.join(VERIF, "seeded")
@@ -62,7 +64,7 @@ def main():
             shutil.rmtree(d)
     os.makedirs(sd, exist_ok=True)
     rows = []
-    for rnd, src, confirm in ((1, out1, conf1), (2, out2, conf2)):
+    for rnd, src, confirm in rounds:
         for d in sorted(glob.glob(os.path.join(src, "C*", "m*"))):
             pid = os.path.basename(os.path.dirname(d))
             mn = os.path.basename(d)
